@@ -67,6 +67,22 @@ func genValue(r *rand.Rand, configs [][]byte) string {
 			return echToken(r, base64.StdEncoding.EncodeToString(configs[r.IntN(len(configs))]))
 		case 3:
 			return `ech=""`
+		case 4:
+			// a near miss of a config that may be published: other unused low
+			// bits in the last group, or junk behind valid base64 (a lenient
+			// decoder yields the same octets for all of them)
+			b := base64.StdEncoding.EncodeToString(configs[r.IntN(len(configs))])
+			switch {
+			case strings.HasSuffix(b, "==") && r.IntN(2) == 0:
+				i := len(b) - 3
+				b = b[:i] + string("ABCDEFGHIJKLMNOPQRSTUVWXYZabcdefghijklmnopqrstuvwxyz0123456789+/"[(strings.IndexByte("ABCDEFGHIJKLMNOPQRSTUVWXYZabcdefghijklmnopqrstuvwxyz0123456789+/", b[i])&^15)|(1+r.IntN(15))]) + "=="
+			case strings.HasSuffix(b, "=") && !strings.HasSuffix(b, "==") && r.IntN(2) == 0:
+				i := len(b) - 2
+				b = b[:i] + string("ABCDEFGHIJKLMNOPQRSTUVWXYZabcdefghijklmnopqrstuvwxyz0123456789+/"[(strings.IndexByte("ABCDEFGHIJKLMNOPQRSTUVWXYZabcdefghijklmnopqrstuvwxyz0123456789+/", b[i])&^3)|(1+r.IntN(3))]) + "="
+			default:
+				b += []string{"$$", "%", "=", "A"}[r.IntN(4)]
+			}
+			return "ech=" + b
 		default:
 			return echToken(r, randB64(r))
 		}
